@@ -56,6 +56,9 @@ communicate through a scoped variable and the identity order executes statements
             "probe.same_edge_from_two_stanzas",
             "probe.all_orders_fail",
             "probe.all_orders_rejected",
+            "probe.debug_attributes_configured",
+            "probe.bare_wildcard_stanza",
+            "probe.print_only_stanza",
             "probe.exhaustive_permutations",
             "probe.sampled_permutations",
         ],
@@ -181,6 +184,37 @@ fn groups(r: &mut Rng) -> (Vec<Stanza>, Vec<String>) {
             out.push(reader("(expression_statement) @es", "es"));
         }
     }
+    if r.chance(1, 6) {
+        // a stanza whose query is the bare wildcard: in the merged query it follows directly
+        // on the previous stanza's pattern
+        out.push(st(
+            "_ @w",
+            vec![Stmt::Node(VarRef::Local("wn".into())), Stmt::AttrNode(Expr::Var("wn".into()), vec![("wt".into(), call("node-type", vec![cap("w")]))])],
+        ));
+    }
+    if r.chance(1, 5) {
+        // matches that only print: their values still have to be kept until the print phase
+        out.push(st(
+            "(module) @pm",
+            vec![Stmt::Let(VarRef::Local("pt".into()), cap("pm")), Stmt::Print(vec![Expr::Str("module: ".into()), Expr::Var("pt".into())])],
+        ));
+        // ... also for the very last node of the source, next to a stanza that builds something
+        // for the same node (so that the stanza order decides which of the two comes last)
+        out.push(st(
+            "(pass_statement) @pp",
+            vec![Stmt::Let(VarRef::Local("pq".into()), cap("pp")), Stmt::Print(vec![Expr::Str("visiting ".into()), Expr::Var("pq".into())])],
+        ));
+        out.push(st(
+            "(pass_statement) @pb",
+            vec![Stmt::Node(VarRef::Scoped(cap("pb"), "pn".into())), Stmt::AttrNode(sc("pb", "pn"), vec![("kind".into(), Expr::Str("pass".into()))])],
+        ));
+        if r.chance(1, 2) {
+            out.push(st(
+                "(identifier) @pi",
+                vec![Stmt::Let(VarRef::Local("pv".into()), call("source-text", vec![cap("pi")])), Stmt::Print(vec![Expr::Var("pv".into())])],
+            ));
+        }
+    }
     if r.chance(1, 5) {
         // one capture name with different quantifiers in different stanzas
         out.push(st(
@@ -239,6 +273,8 @@ pub struct Case {
     pub source: String,
     pub globs: Globs,
     pub hash_seed: u64,
+    /// run every order with ExecutionConfig::debug_attributes
+    pub debug: bool,
 }
 
 pub fn make_case(ctx: &ShardCtx, i: u64) -> Case {
@@ -308,7 +344,8 @@ pub fn make_case(ctx: &ShardCtx, i: u64) -> Case {
         &mut Rng::sub(seed, "src"),
         &pysrc::SrcCfg { max_stmts: if ctx.tier == Tier::Quick { 6 } else { 12 }, ..Default::default() },
     ));
-    Case { prog, source, globs, hash_seed: rng::mix(seed, 0xc08) }
+    source.push_str("pass\n"); // the last node of every source is a pass statement
+    Case { prog, source, globs, hash_seed: rng::mix(seed, 0xc08), debug: r.chance(1, 4) }
 }
 
 fn permutations(n: usize, r: &mut Rng) -> (Vec<Vec<usize>>, bool) {
@@ -387,15 +424,48 @@ fn stanza_only_edge_attr(s: &Stanza) -> bool {
     s.stmts.iter().any(|x| matches!(x, Stmt::AttrEdge(..))) && !stanza_has_edge(s)
 }
 
-fn run_one(text: &str, source: &str, globs: &Globs) -> Result<Outcome, String> {
-    simrun::run_text(text, source, true, globs)
+/// Loads and executes lazily.  Err = rejected by the loader.  With `debug` the run uses
+/// `ExecutionConfig::debug_attributes`; the location attribute is then dropped from the result
+/// (line numbers legitimately move with the stanzas), the variable-name and match-node
+/// attributes are kept.
+fn run_one(text: &str, source: &str, globs: &Globs, debug: bool) -> Result<Outcome, String> {
+    use tree_sitter_graph::Identifier;
+    let r = std::panic::catch_unwind(|| -> Result<Outcome, String> {
+        let file = simrun::load(text)?;
+        let tree = simrun::parse_python(source);
+        let fns = simrun::functions();
+        let vars = simrun::make_variables(globs, &[]);
+        let mut config = tree_sitter_graph::ExecutionConfig::new(&fns, &vars).lazy(true);
+        if debug {
+            config = config.debug_attributes(Identifier::from("dbg_loc"), Identifier::from("dbg_var"), Identifier::from("dbg_match"));
+        }
+        Ok(match file.execute(&tree, source, &config, &tree_sitter_graph::NoCancellation) {
+            Ok(graph) => {
+                let mut g = canon::cgraph(&graph);
+                if debug {
+                    for n in &mut g.nodes {
+                        n.attrs.remove("dbg_loc");
+                        for e in &mut n.edges {
+                            e.1.remove("dbg_loc");
+                        }
+                    }
+                }
+                Outcome::Graph(g)
+            }
+            Err(e) => Outcome::Error(canon::cerr(&e)),
+        })
+    });
+    match r {
+        Ok(x) => x,
+        Err(p) => Ok(Outcome::Panic(entropy::panic_message(&p))),
+    }
 }
 
 fn check_case(case: &Case, only: Option<Vec<usize>>) -> (Stats, Option<Found>) {
     let mut st = Stats::default();
     let n = case.prog.stanzas.len();
     let id_text = case.prog.render();
-    let id_out = match run_one(&id_text, &case.source, &case.globs) {
+    let id_out = match run_one(&id_text, &case.source, &case.globs, case.debug) {
         Ok(o) => o,
         Err(_) => {
             // the loader rejects the identity order: it must reject every other order as well
@@ -407,7 +477,7 @@ fn check_case(case: &Case, only: Option<Vec<usize>>) -> (Stats, Option<Found>) {
             st.exhaustive = exhaustive;
             for p in perms {
                 st.perms += 1;
-                if simrun::load(&case.prog.permuted(&p).render()).is_ok() {
+                if run_one(&case.prog.permuted(&p).render(), &case.source, &case.globs, case.debug).is_ok() {
                     return (st, Some(Found { class: "rejection-depends-on-order", perm: p, detail: "the identity order is rejected by the loader but this order is accepted".into() }));
                 }
             }
@@ -422,7 +492,7 @@ fn check_case(case: &Case, only: Option<Vec<usize>>) -> (Stats, Option<Found>) {
         if only.is_none() {
             let (perms, _) = permutations(n, &mut Rng::sub(case.hash_seed, "perms"));
             for p in perms {
-                if let Ok(o) = run_one(&case.prog.permuted(&p).render(), &case.source, &case.globs) {
+                if let Ok(o) = run_one(&case.prog.permuted(&p).render(), &case.source, &case.globs, case.debug) {
                     st.executions += 1;
                     if !matches!(o, Outcome::Panic(_)) {
                         return (st, Some(Found { class: "panic-under-order", perm: p, detail: format!("the identity order panicked ({}) but this order does not: {}", m, o.brief().chars().take(200).collect::<String>()) }));
@@ -466,7 +536,7 @@ fn check_case(case: &Case, only: Option<Vec<usize>>) -> (Stats, Option<Found>) {
         }
         let text = prog.render();
         st.perms += 1;
-        let out = match run_one(&text, &case.source, &case.globs) {
+        let out = match run_one(&text, &case.source, &case.globs, case.debug) {
             Ok(o) => o,
             Err(e) => {
                 return (st, Some(Found { class: "order-rejected-by-loader", perm: p, detail: format!("the identity order loads but this order is rejected: {}", e) }));
@@ -517,6 +587,7 @@ fn case_json(c: &Case, perm: &[usize]) -> J {
         "source": c.source,
         "globals": simrun::globs_json(&c.globs),
         "hash_seed": c.hash_seed,
+        "debug_attributes": c.debug,
     })
 }
 
@@ -527,18 +598,20 @@ pub fn replay(sc: &J) -> Result<Option<(String, String)>, String> {
     let source = sc["source"].as_str().unwrap_or("").to_string();
     let globs = simrun::globs_from_json(&sc["globals"]);
     let hs = sc["hash_seed"].as_u64().unwrap_or(1);
+    let debug = sc["debug_attributes"].as_bool().unwrap_or(false);
+    crate::engine::discard_stderr();
     entropy::with_hash_seed(hs, move || -> Result<Option<(String, String)>, String> {
-        let a = match run_one(&id_text, &source, &globs) {
+        let a = match run_one(&id_text, &source, &globs, debug) {
             Ok(a) => a,
             Err(_) => {
-                return Ok(if simrun::load(&pm_text).is_ok() {
+                return Ok(if run_one(&pm_text, &source, &globs, debug).is_ok() {
                     Some(("rejection-depends-on-order".into(), "the identity order is rejected by the loader but this order is accepted".into()))
                 } else {
                     None
                 });
             }
         };
-        let b = match run_one(&pm_text, &source, &globs) {
+        let b = match run_one(&pm_text, &source, &globs, debug) {
             Ok(b) => b,
             Err(e) => return Ok(Some(("order-rejected-by-loader".into(), e))),
         };
@@ -613,6 +686,7 @@ fn minimise(case: &Case, f: Found) -> (Case, Found) {
 }
 
 pub fn run_shard(ctx: &ShardCtx, rep: &mut Report) {
+    crate::engine::discard_stderr();
     let total: u64 = match ctx.tier {
         Tier::Quick => ctx.scaled(480) as u64,
         Tier::Thorough => ctx.scaled(24_000) as u64,
@@ -668,6 +742,15 @@ pub fn run_shard(ctx: &ShardCtx, rep: &mut Report) {
         }
         if st.same_edge_twice {
             rep.count("probe.same_edge_from_two_stanzas");
+        }
+        if case.debug {
+            rep.count("probe.debug_attributes_configured");
+        }
+        if case.prog.stanzas.iter().any(|s| s.query == "_ @w") {
+            rep.count("probe.bare_wildcard_stanza");
+        }
+        if case.prog.stanzas.iter().any(|s| s.query == "(module) @pm") {
+            rep.count("probe.print_only_stanza");
         }
         rep.add("inconclusive_isomorphism", st.inconclusive);
         rep.run_hashes.push((i, st.transcript));
